@@ -185,12 +185,15 @@ impl ExecGen {
                     if vars.is_empty() {
                         return Err("unsupported construct: quote repetition without variables".into());
                     }
+                    // the repetition is built in a fresh stream and appended, so that its value is a sequence of its own
+                    // (`target@ == old.add(rep@)`), which is what a spec template can name
                     self.reps_general += 1;
                     self.next_tmp += 1;
                     let i = format!("__r{}", self.next_tmp);
-                    write!(s, "{{ let mut {i}: usize = 0; while {i} < {v}.len() {{ ", i = i, v = vars[0]).unwrap();
-                    self.gen(body, target, Some(&i), s)?;
-                    write!(s, "{i} = {i} + 1; }} }} ", i = i).unwrap();
+                    let rep = format!("__rep{}", self.next_tmp);
+                    write!(s, "{{ let mut {rep} = vx_ts_new(); let mut {i}: usize = 0; while {i} < {v}.len() {{ ", rep = rep, i = i, v = vars[0]).unwrap();
+                    self.gen(body, &rep, Some(&i), s)?;
+                    write!(s, "{i} = {i} + 1; }} {rep}.vx_to_tokens(&mut {t}); }} ", i = i, rep = rep, t = target).unwrap();
                 }
             }
         }
